@@ -38,11 +38,13 @@ pub fn constant_variable_optimization(source_unit: SourceUnit) -> HashSet<Loc> {
 
         match expression {
             pt::Expression::Assign(_, box_expression, _) => {
-                if let pt::Expression::Variable(identifier) = *box_expression {
-                    //if the variable name exists in the storage variable hashmap
-                    if storage_variables.contains_key(&identifier.name) {
-                        //if the variable has been used, remove it from storage variables
-                        storage_variables.remove(&identifier.name);
+                for target in utils::get_assignment_targets(*box_expression) {
+                    if let pt::Expression::Variable(identifier) = target {
+                        //if the variable name exists in the storage variable hashmap
+                        if storage_variables.contains_key(&identifier.name) {
+                            //if the variable has been used, remove it from storage variables
+                            storage_variables.remove(&identifier.name);
+                        }
                     }
                 }
             }
